@@ -43,6 +43,9 @@ def val(t, v):
     return {"t": t, "b": list(v.to_bytes(4 if t == "i32" else 8, "little"))}
 
 
+M_ALL = {"i32": (1 << 32) - 1, "i64": (1 << 64) - 1}
+
+
 def grid_items(rng, npool, nrand, bitpos=True):
     items = []
     for t, bits in (("i32", 32), ("i64", 64)):
@@ -72,6 +75,40 @@ def grid_items(rng, npool, nrand, bitpos=True):
             add(o, 1, [["local.get", 0], ["local.get", 1], ["%s.%s" % (t, o)], ["end"]], 2)
         for o in IUN[t]:
             add(o, 3 if o == "eqz" else 2, [["local.get", 0], ["%s.%s" % (t, o)], ["end"]], 1)
+        # an operand that is an immediate, on either side (constant operands invite special-casing in a translator)
+        CK = [0, 1, 2, M_ALL[t], M_ALL[t] >> 1, (M_ALL[t] >> 1) + 1, bits - 1, bits, bits + 1, 7]
+        cst = (lambda x: [t + ".const", list((x & M_ALL[t]).to_bytes(bits // 8, "little"))])
+        PC = P[:6] + P[-2:]
+        for o in IBIN + IREL:
+            for ci, cv in enumerate(CK):
+                for side in (0, 1):
+                    nm_ = "%s_c%d_%d" % (o, ci, side)
+                    body = ([["local.get", 0], cst(cv)] if side else [cst(cv), ["local.get", 0]]) + [["%s.%s" % (t, o)], ["end"]]
+                    funcs.append({"type": 2 if o in IBIN else 3, "locals": [], "body": body})
+                    exports.append({"name": nm_, "kind": "func", "idx": len(funcs) - 1})
+                    for a in PC:
+                        calls.append({"op": "call", "inst": 1, "export": nm_, "args": [val(t, a)]})
+        # a comparison consumed directly by eqz / br_if / if / select, and trapping operators whose result is dropped
+        for o in IREL:
+            for cons in ("eqz", "br_if", "if", "select"):
+                nm_ = "%s_then_%s" % (o, cons)
+                cmp_ = [["local.get", 0], ["local.get", 1], ["%s.%s" % (t, o)]]
+                body = {"eqz": cmp_ + [["i32.eqz"], ["end"]],
+                        "br_if": [["block", "i32"], ["i32.const", [7, 0, 0, 0]]] + cmp_ + [["br_if", 0], ["drop"], ["i32.const", [9, 0, 0, 0]], ["end"], ["end"]],
+                        "if": cmp_ + [["if", "i32"], ["i32.const", [7, 0, 0, 0]], ["else"], ["i32.const", [9, 0, 0, 0]], ["end"], ["end"]],
+                        "select": [["i32.const", [7, 0, 0, 0]], ["i32.const", [9, 0, 0, 0]]] + cmp_ + [["select"], ["end"]]}[cons]
+                funcs.append({"type": 1, "locals": [], "body": body})
+                exports.append({"name": nm_, "kind": "func", "idx": len(funcs) - 1})
+                for a in PC:
+                    for b in PC:
+                        calls.append({"op": "call", "inst": 1, "export": nm_, "args": [val(t, a), val(t, b)]})
+        for o in ("div_s", "div_u", "rem_s", "rem_u"):
+            nm_ = "%s_dropped" % o
+            funcs.append({"type": 1, "locals": [], "body": [["local.get", 0], ["local.get", 1], ["%s.%s" % (t, o)], ["drop"], ["i32.const", [1, 0, 0, 0]], ["end"]]})
+            exports.append({"name": nm_, "kind": "func", "idx": len(funcs) - 1})
+            for a in PC:
+                for b in PC:
+                    calls.append({"op": "call", "inst": 1, "export": nm_, "args": [val(t, a), val(t, b)]})
         # split the calls over several items so that TLC shards balance
         chunk = 400
         mod = {"types": types, "funcs": funcs, "exports": exports}
